@@ -100,6 +100,29 @@ Theorem C10_serve_accept : forall (root cont cbytes : Type) (cdecode : bty -> cb
 Proof. exact @serve_accept. Qed.
 Print Assumptions C10_serve_accept.
 
+(** the representation made explicit for rows (RowBlock.Populate = AxisHalf.ToRow): an accessor may hand out the data half
+    or — as ODS+Q4 files do for the lower half of the EDS — the parity half, as long as it says which; the served row
+    verifies against the committed row and yields exactly its shares.  [parity]/[recover] is the erasure code (abstract;
+    the one hypothesis is that the data half is recovered from the parity half). *)
+Theorem C10_serve_row_any_half : forall (share : Type) (parity recover : list share -> list share),
+  (forall l, recover (parity l) = l) ->
+  forall (data : list share) (h : bool * list share),
+  half_of parity data h ->
+  row_verifies parity recover (data ++ parity data) (to_row true h) /\
+  row_shares parity recover (to_row true h) = data ++ parity data.
+Proof. exact @serve_row_any_half. Qed.
+Print Assumptions C10_serve_row_any_half.
+
+(** seeded change C10-d (the IsParity flag dropped): the honest parity half labelled LEFT does not verify *)
+Theorem C10_serve_row_flag_dropped_refuted :
+  let parity := map Z.succ in let recover := map Z.pred in
+  (forall l, recover (parity l) = l) /\
+  half_of parity [1] (true, parity [1]) /\
+  ~ row_verifies parity recover ([1] ++ parity [1]) (to_row false (true, parity [1])) /\
+  row_verifies parity recover ([1] ++ parity [1]) (to_row true (true, parity [1])).
+Proof. exact serve_row_flag_dropped_refuted. Qed.
+Print Assumptions C10_serve_row_flag_dropped_refuted.
+
 (** ** concurrent fetches of one identifier *)
 
 (** a duplicate fetch applies the same check against its own roots ... *)
@@ -131,6 +154,90 @@ Theorem C10_early_return_witness :
 Proof. exact early_return_witness. Qed.
 Print Assumptions C10_early_return_witness.
 
+(** ** every interleaving of concurrent fetches of one identifier (model: Shwap/Bitswap.v, Section Conc)
+
+    [crun cdecode verify atomic_reg trust k st tr] runs the step list [tr] — registrations (one atomic load-or-store when
+    [atomic_reg = true], Load ... Store when [false]), subscriptions, bodies decoded by the hasher and published to the
+    sessions at any later time, blocks taken from the session, re-publication by NotifyNewBlocks, duplicate path, return
+    with the deferred registry clean-up, cancellation — of ANY number of fetches ([nat]-indexed) of the CID [k], each with
+    its own Block and roots.  [trust = false] is the code with fix-c10-3, [trust = true] the code before it. *)
+
+(** a Fetch that returns nil holds a populated Block whose container verifies against ITS OWN roots — every interleaving,
+    every number of fetches, and independently of the registration discipline *)
+Theorem C10_conc_fetch_sound : forall (root cont cbytes : Type) (cdecode : bty -> cbytes -> option cont)
+    (verify : root -> bty -> id -> cont -> bool) (k : list Z) (atomic_reg : bool)
+    (blk0 : nat -> entry root cont) (tr : list (cstep (cbytes := cbytes))),
+  (forall i, e_cont (blk0 i) = None) ->
+  forall i, f_pc (c_fs (crun cdecode verify atomic_reg false k (cinit blk0) tr) i) = FRet true ->
+  exists c, e_cont (f_blk (c_fs (crun cdecode verify atomic_reg false k (cinit blk0) tr) i)) = Some c /\
+            verify (e_root (f_blk (c_fs (crun cdecode verify atomic_reg false k (cinit blk0) tr) i)))
+                   (e_ty (f_blk (c_fs (crun cdecode verify atomic_reg false k (cinit blk0) tr) i)))
+                   (e_id (f_blk (c_fs (crun cdecode verify atomic_reg false k (cinit blk0) tr) i))) c = true.
+Proof. exact @conc_fetch_sound. Qed.
+Print Assumptions C10_conc_fetch_sound.
+
+(** in every variant, at every moment: whatever a Block of a concurrent fetch holds verifies against its own roots *)
+Theorem C10_conc_blocks_verified : forall (root cont cbytes : Type) (cdecode : bty -> cbytes -> option cont)
+    (verify : root -> bty -> id -> cont -> bool) (k : list Z) (atomic_reg trust : bool)
+    (blk0 : nat -> entry root cont) (tr : list (cstep (cbytes := cbytes))) i c,
+  (forall i, e_cont (blk0 i) = None) ->
+  let x := c_fs (crun cdecode verify atomic_reg trust k (cinit blk0) tr) i in
+  e_cont (f_blk x) = Some c -> verify (e_root (f_blk x)) (e_ty (f_blk x)) (e_id (f_blk x)) c = true.
+Proof. exact @conc_blocks_verified. Qed.
+Print Assumptions C10_conc_blocks_verified.
+
+(** the atomic registration keeps the registry entry of the CID with exactly the one fetch that registered it and has not
+    returned ... *)
+Theorem C10_conc_registry_owner : forall (root cont cbytes : Type) (cdecode : bty -> cbytes -> option cont)
+    (verify : root -> bty -> id -> cont -> bool) (k : list Z) (trust : bool)
+    (blk0 : nat -> entry root cont) (tr : list (cstep (cbytes := cbytes))),
+  let st := crun cdecode verify true trust k (cinit blk0) tr in
+  (forall o, c_owner st = Some o -> orig_inflight (f_pc (c_fs st o)) = true) /\
+  (forall j, orig_inflight (f_pc (c_fs st j)) = true -> c_owner st = Some j).
+Proof. exact @conc_registry_owner. Qed.
+Print Assumptions C10_conc_registry_owner.
+
+(** ... so the hasher always finds the verifier of that pending request: the honest body for it is accepted and fills it *)
+Theorem C10_conc_pending_served : forall (root cont cbytes : Type) (cdecode : bty -> cbytes -> option cont)
+    (verify : root -> bty -> id -> cont -> bool) (k : list Z) (trust : bool)
+    (blk0 : nat -> entry root cont) (tr : list (cstep (cbytes := cbytes))) f t idb container c,
+  (forall i, e_cont (blk0 i) = None) ->
+  let st := crun cdecode verify true trust k (cinit blk0) tr in
+  let e := f_blk (c_fs st f) in
+  orig_inflight (f_pc (c_fs st f)) = true ->
+  extract_bytes k = Some (t, idb) -> dec (kind_of (e_ty e)) idb = Some (e_id e) ->
+  cdecode (e_ty e) container = Some c -> verify (e_root e) (e_ty e) (e_id e) c = true ->
+  exists st', check cdecode verify k st (Some (k, container)) = (st', true) /\
+              f_done (c_fs st' f) = true /\ holds_verified verify (c_fs st' f).
+Proof. exact @conc_pending_served. Qed.
+Print Assumptions C10_conc_pending_served.
+
+(** seeded change C10-c (Load ... Store instead of LoadOrStore) on the code before fix-c10-3: two fetches that overlap,
+    the later Store displaces the earlier entry, fetch 0 returns nil with an empty Block *)
+Theorem C10_conc_twostep_refuted :
+  overlapping w_dec w_ver false true w_k (cinit (fun _ => w_blk false)) w_twostep /\
+  ~ fetch_safe w_ver (w_run false true (fun _ => false) w_twostep).
+Proof. exact conc_twostep_refuted. Qed.
+Print Assumptions C10_conc_twostep_refuted.
+
+(** the same on the repaired code: no unverified data any more, but the verifier of pending fetch 0 is displaced and its
+    honest body rejected — [C10_conc_registry_owner] / [C10_conc_pending_served] fail without the atomic registration *)
+Theorem C10_conc_twostep_displaces :
+  let st := w_run false false (fun i => Nat.eqb i 1) [SEnter 0; SEnter 1; SReg 0; SReg 1]%nat in
+  orig_inflight (f_pc (c_fs st 0%nat)) = true /\ c_owner st = Some 1%nat /\
+  snd (check w_dec w_ver w_k st (w_body false)) = false.
+Proof. exact conc_twostep_displaces. Qed.
+Print Assumptions C10_conc_twostep_displaces.
+
+(** the code before fix-c10-3 (atomic registration, a self-registered fetch trusts the hasher blindly): a copy of the
+    block decoded during an earlier fetch and published later ([w_stale]), or re-published by a duplicate after the
+    original requester returned ([w_notify]), makes a Fetch return nil with an empty Block *)
+Theorem C10_conc_trust_refuted :
+  ~ fetch_safe w_ver (w_run true true (fun _ => false) w_stale) /\
+  ~ fetch_safe w_ver (w_run true true (fun _ => false) w_notify).
+Proof. exact conc_trust_refuted. Qed.
+Print Assumptions C10_conc_trust_refuted.
+
 (** ** non-vacuity *)
 Example C10_nonvacuous :
   block_cid BSample (mkid 7 3 5 []) = [1; 144; 240; 1; 145; 240; 1; 12; 0; 0; 0; 0; 0; 0; 0; 7; 0; 3; 0; 5] /\
@@ -149,3 +256,12 @@ Example C10_nonvacuous_accept :
   hasher_write cd vf false r (Some (k, Some false)) = (r, WErr) /\
   hasher_write cd vf false r (Some (k, Some true)) = ([(k, mkentry BRow (mkid 9 2 0 []) tt (Some true))], WOk (enc KRow (mkid 9 2 0 []))).
 Proof. repeat split; reflexivity. Qed.
+
+Example C10_conc_nonvacuous :
+  let a := w_run true false (fun _ => false) w_stale in
+  let b := w_run true false (fun _ => false) w_notify in
+  let c := w_run true false (fun _ => false) w_twostep in
+  f_pc (c_fs a 1%nat) = FRet true /\ e_cont (f_blk (c_fs a 1%nat)) = Some false /\
+  f_pc (c_fs b 2%nat) = FRet true /\ e_cont (f_blk (c_fs b 2%nat)) = Some false /\
+  f_pc (c_fs c 0%nat) = FRet true /\ e_cont (f_blk (c_fs c 0%nat)) = Some false /\ c_owner c = None.
+Proof. exact conc_nonvacuous. Qed.
